@@ -202,7 +202,7 @@ impl Property for C16 {
          thresholds 0..u32::MAX, empty and non-empty collections, environment None/empty/entries, byproducts with every subset of the \
          optional fields plus extra fields, all key types (a third of the layouts list one RSA key under both of its signature schemes - one material, two key ids - and an ECDSA key), 1-2 digest algorithms per artifact, Unicode text everywhere, whole-second \
          expiries in years 1970-9999); independently rendered wire documents (member order, whitespace, escape spelling, optional members \
-         absent, expiry spelled in another UTC offset). Oracle: parse(ser(v)) == v for serde_json compact and pretty and for the library's own writers Json::to_writer and JsonPretty::to_writer, parsed with serde_json and with the library's Json::from_slice, Json::from_reader and JsonPretty::from_reader (documents reach several hundred KiB through the artifact-count tail); ser(parse(ser(v))) is \
+         absent, expiry spelled in another UTC offset, and - an eighth of them - the keywords of one artifact rule written in lower case or capitalised only, which the parser may refuse). Oracle: parse(ser(v)) == v for serde_json compact and pretty and for the library's own writers Json::to_writer and JsonPretty::to_writer, parsed with serde_json and with the library's Json::from_slice, Json::from_reader and JsonPretty::from_reader (documents reach several hundred KiB through the artifact-count tail); ser(parse(ser(v))) is \
          byte-identical, repeated 8 times on freshly parsed instances (samples hash-map orders); for rendered documents that parse, every \
          member of D re-appears unchanged in ser(parse(D)) (expiry compared as an instant; defaults may be added). Non-trivial: the value \
          uses an optional/variant feature (MATCH prefix, extra byproduct field, >=2 digests, non-ASCII text, >=2 keys, environment); distinct by document."
@@ -314,6 +314,41 @@ impl Property for C16 {
                         }
                     }
                 }
+                // a rule whose keywords are spelled in another letter case: the parser may refuse it, but must not
+                // accept it and write other keywords back
+                let mut keyword_respelled = false;
+                if drop_optional & 32 != 0 {
+                    let capitalise_only = drop_optional & 64 != 0;
+                    let rule = ["steps", "inspect"].iter().find_map(|sec| {
+                        d.get(*sec).and_then(|a| a.as_array()).and_then(|items| {
+                            items.iter().enumerate().find_map(|(i, it)| {
+                                ["expected_materials", "expected_products"].iter().find_map(|side| {
+                                    it.get(*side).and_then(|r| r.as_array()).filter(|r| !r.is_empty()).map(|r| (sec.to_string(), i, side.to_string(), (*drop_optional as usize >> 3) % r.len()))
+                                })
+                            })
+                        })
+                    });
+                    if let Some((sec, i, side, ri)) = rule {
+                        if let Some(parts) = d[&sec][i][&side][ri].as_array_mut() {
+                            let is_match = parts.first().and_then(|x| x.as_str()) == Some("MATCH");
+                            for (pos, el) in parts.iter_mut().enumerate() {
+                                let Some(t) = el.as_str().map(|t| t.to_string()) else { continue };
+                                let keyword = pos == 0 || (is_match && pos >= 2 && ["IN", "WITH", "FROM", "MATERIALS", "PRODUCTS"].contains(&t.as_str()));
+                                if !keyword || (capitalise_only && pos != 0) {
+                                    continue;
+                                }
+                                let respelled = if capitalise_only { format!("{}{}", &t[..1], t[1..].to_lowercase()) } else { t.to_lowercase() };
+                                if respelled != t {
+                                    *el = Value::String(respelled);
+                                    keyword_respelled = true;
+                                }
+                            }
+                        }
+                    }
+                    if keyword_respelled {
+                        o.class("rule-keyword-in-another-letter-case");
+                    }
+                }
                 let d = if *as_block { json!({"signatures": [], "signed": d}) } else { d };
                 let text = spelling(&J::from_value(&d), spell);
                 let out: Result<Value, String> = if *as_block {
@@ -325,6 +360,7 @@ impl Property for C16 {
                     }
                 };
                 match out {
+                    Err(_) if keyword_respelled => o.class("respelled-keyword-refused"),
                     Err(e) => {
                         // reference-shaped documents are expected to parse; report as its own class of failure
                         o.fail("C16/rendered/reference-shaped-document-rejected", format!("{}: {}", e, text), "parses");
@@ -340,7 +376,7 @@ impl Property for C16 {
                         } else {
                             serde_json::from_str::<MetadataWrapper>(&text).map(|m| m == doc.to_lib()).unwrap_or(false)
                         };
-                        if !parsed_equal && !o.classes.iter().any(|c| c == "keys-with-empty-hash-algorithm-list") {
+                        if !parsed_equal && !keyword_respelled && !o.classes.iter().any(|c| c == "keys-with-empty-hash-algorithm-list") {
                             o.fail("C16/rendered/parsed-value-differs-from-built-value", format!("document {}", text), "parse(D) == value built from the same specification");
                         }
                     }
